@@ -271,14 +271,15 @@ def mime_algorithm(site, fam, reg, b, k):
 
 
 @functools.lru_cache(maxsize=64)
-def agnostic_algorithm(fam, num_domains, b, k):
+def agnostic_algorithm(fam, num_domains, b, k, reg='none'):
   return agnostic_fed_avg.agnostic_federated_averaging(
       LOSS[fam], fedjax.optimizers.sgd(0.5), fedjax.optimizers.sgd(1.0),
       fedjax.ShuffleRepeatBatchHParams(batch_size=1, num_steps=0),
       fedjax.PaddedBatchHParams(batch_size=b, num_batch_size_buckets=k),
       init_domain_weights=np.full((num_domains,), 1.0 / num_domains, np.float32),
       domain_learning_rate=0.125, domain_algorithm='eg', domain_window_size=1,
-      init_domain_window=np.ones((num_domains,), np.float32))
+      init_domain_window=np.ones((num_domains,), np.float32),
+      regularizer=regularizer(fam, reg))
 
 
 # ------------------------------------------------------------- float64 oracle
@@ -760,13 +761,13 @@ def run_domain_metrics(case):
     else:
       # Packaged algorithm: the window holds the summed counts, the domain
       # weights are the EG update with the mean per-domain loss.
-      alg = agnostic_algorithm(fam, nd, geom['b'], geom['k'])
+      alg = agnostic_algorithm(fam, nd, geom['b'], geom['k'], reg)
       state = alg.init(params_tree(fam, ints))
       clients = [(client_id(ci),
                   fedjax.ClientDataset(arrays(fam, case['clients'][ci], with_dom=True)),
                   key(case, ci)) for ci in range(nc)]
       new_state, _ = alg.apply(state, clients)
-      what = f'{site}[{fam},D={nd}] sizes {sizes} {gname(gi, geom)}'
+      what = f'{site}[{fam},{reg},D={nd}] sizes {sizes} {gname(gi, geom)}'
       tot_num = sum(want_num)
       tot_loss = sum(want_loss)
       window = np.asarray(new_state.domain_window[-1], np.float64)
@@ -778,8 +779,16 @@ def run_domain_metrics(case):
       w = w / w.sum()
       got_w = np.asarray(new_state.domain_weights, np.float64)
       # d w_d / d mean_d <= lr * w_d, so TOL * (1 + max mean loss) covers it.
-      check_close(got_w, w, 1.0 + amax(mean), 'domain_weights:differ_from_eg_update_of_mean_loss',
-                  what)
+      if reg == 'none':
+        check_close(got_w, w, 1.0 + amax(mean), 'domain_weights:differ_from_eg_update_of_mean_loss',
+                    what)
+      else:
+        # With a regularizer passed to the packaged algorithm there is no
+        # documented reference for the per-domain loss (with or without the
+        # regularizer term); what is decidable is that the domain weights are a
+        # finite probability vector and do not depend on the batch geometry.
+        require(bool(np.all(np.isfinite(got_w))) and abs(float(got_w.sum()) - 1.0) <= 1e-5,
+                'domain_weights:not_a_probability_vector', lambda: f'{what}: {got_w.tolist()}')
       if base is not None:
         check_close(got_w, base[0], 1.0 + amax(mean), 'domain_weights:depend_on_geometry',
                     what + ' vs baseline geometry', 2.0)
@@ -965,9 +974,12 @@ def domain_case(draw, tier):
   direct = site == SITE_DOMAIN
   kinds = ['padded', 'padded+', 'layout', 'layout'] if direct else ['padded']
   geoms = draw(geoms_strategy(tier, sizes, kinds))
-  # The open finding (regularizer passed to the domain-metrics pass) is
-  # excluded by construction: reg is always 'none' here.
-  return {'site': site, 'family': fam, 'reg': 'none', 'num_domains': nd,
+  # The open finding (regularizer passed DIRECTLY to the domain-metrics pass) is
+  # excluded by construction: reg is always 'none' at that site.  The packaged
+  # algorithm takes a regularizer (it must not make the domain weights depend on
+  # the batch geometry).
+  reg = 'none' if direct else draw(st.sampled_from(REGS_OPAQUE))
+  return {'site': site, 'family': fam, 'reg': reg, 'num_domains': nd,
           'alpha': draw(st.lists(st.integers(0, 16), min_size=nd, max_size=nd)),
           'params': draw(params_strategy(fam)), 'clients': clients,
           'geoms': geoms if direct else geoms[:2],
